@@ -106,6 +106,14 @@ struct RunEnv {
         throw Violation{prop, oracle, detail, step};
     }
     void check(bool cond, const char* prop, const char* oracle, const std::string& detail) { if (!cond) fail(prop, oracle, detail); }
+    // A value-only mismatch that belongs to a property other than the one being checked does not end the run: it is counted
+    // (and reported by that property's own check) and the history continues, so that the focus property's own oracles still
+    // get to judge what follows. Structural mismatches (after which continuing is unsafe) use fail()/check().
+    bool soft(bool cond, const char* prop, const char* oracle, const std::string& detail) {
+        if (cond) return true;
+        if (!focus.empty() && focus != prop) { count(std::string("other_property_violation:") + prop + ":" + oracle); logf("SOFT %s %s", prop, oracle); return false; }
+        fail(prop, oracle, detail);
+    }
 };
 
 struct Scenario {
